@@ -488,4 +488,523 @@ Section Wf.
     eapply (step_progress n IH); eassumption.
   Qed.
 
+  (* =========================== (2) termination =============================================== *)
+
+  Local Notation D := (body_depth rules (e_rules E) (e_skip E)).
+  Local Notation K := (rank_bound rules c).
+  Local Notation B := (level_fuel D K).
+
+  Definition heads_lt (inh : bool) (e : texpr) (k : nat) : Prop :=
+    Forall (fun x => x < k) (head_ranks c inh e).
+
+  Lemma D_pos : 1 <= D.
+  Proof. unfold body_depth. lia. Qed.
+
+  Lemma rule_depth r : In r rules -> depth (r_body (e_rules E r)) < D.
+  Proof.
+    intros Hin. unfold body_depth.
+    pose proof (list_max_In (depth (r_body (e_rules E r))) (map (fun r0 => depth (r_body (e_rules E r0))) rules)) as H.
+    specialize (H (in_map (fun r0 => depth (r_body (e_rules E r0))) rules r Hin)). lia.
+  Qed.
+
+  Lemma skip_depth_lt se : e_skip E = SkipRep se -> depth se < D.
+  Proof. intros Hs. unfold body_depth. rewrite Hs. cbn [skip_depth]. lia. Qed.
+
+  Lemma rank_lt r inh : In r rules -> rank c r inh < K.
+  Proof.
+    intros Hin. unfold rank_bound.
+    pose proof (list_max_In _ _ (in_map (fun r0 => Nat.max (rank c r0 true) (rank c r0 false)) rules r Hin)) as H.
+    cbv beta in H. destruct inh; lia.
+  Qed.
+
+  Lemma skip_rank_lt : skip_rank c < K.
+  Proof. unfold rank_bound. lia. Qed.
+
+  Lemma seq_heads_cons h nul skr first e es :
+    seq_heads h nul skr first (e :: es) =
+    (if first then [] else skr) ++ h e ++ (if nul e then seq_heads h nul skr false es else []).
+  Proof. reflexivity. Qed.
+
+  Lemma seq_heads_all (Q : nat -> Prop) h nul skr : Forall Q skr -> forall es first,
+    Forall (fun e => Forall Q (h e)) es -> Forall Q (seq_heads h nul skr first es).
+  Proof.
+    intros Hskr. induction es as [|e es IH]; intros first Hes; [constructor|].
+    inversion Hes; subst. rewrite seq_heads_cons. apply Forall_app. split.
+    - destruct first; [constructor|exact Hskr].
+    - apply Forall_app. split; [assumption|]. destruct (nul e); [apply IH; assumption|constructor].
+  Qed.
+
+  (* in a closed expression every head rank is below the global bound *)
+  Lemma heads_K inh : forall e, good e -> heads_lt inh e K.
+  Proof.
+    unfold heads_lt. intros e. induction e as [e IH] using texpr_children_ind. intros Hg.
+    pose proof (good_children e Hg) as Hch.
+    assert (Hsub : Forall (fun e' => Forall (fun x => x < K) (head_ranks c inh e')) (children e)).
+    { rewrite Forall_forall in *. intros x Hx. apply IH; [exact Hx|apply Hch; exact Hx]. }
+    clear IH Hch. destruct e; cbn [children head_ranks] in *; try (constructor; fail);
+      try (inversion Hsub; subst; assumption).
+    - apply seq_heads_all; [|exact Hsub]. destruct (resolve k inh); [|constructor].
+      constructor; [exact skip_rank_lt|constructor].
+    - apply Forall_flat_map. exact Hsub.
+    - inversion Hsub as [|? ? H1 H2]; subst. inversion H2; subst.
+      apply Forall_app. split; [assumption|]. destruct (may_be_empty c e1); [assumption|constructor].
+    - constructor; [|constructor]. apply rank_lt. apply (good_rule _ _ Hg).
+  Qed.
+
+  (* ---- arithmetic of the measure ---- *)
+
+  Lemma mul_step a b d : a < b -> a * d + d <= b * d.
+  Proof.
+    intros H. replace (a * d + d) with (S a * d) by (cbn [Nat.mul]; lia).
+    apply Nat.mul_le_mono_r. lia.
+  Qed.
+
+  Lemma lf_k m k k' : k < k' -> B m k + D <= B m k'.
+  Proof.
+    intros H. unfold level_fuel.
+    pose proof (mul_step (m * S K + k) (m * S K + k') D ltac:(lia)). lia.
+  Qed.
+
+  Lemma lf_m m m' k k' : m' < m -> k <= K -> B m' k + D <= B m k'.
+  Proof.
+    intros H1 H2. unfold level_fuel.
+    pose proof (Nat.mul_le_mono_r (S m') m (S K) H1) as H3. cbn [Nat.mul] in H3.
+    pose proof (mul_step (m' * S K + k) (m * S K + k') D ltac:(lia)). lia.
+  Qed.
+
+  Lemma lf_mono m m' k k' : m' <= m -> k <= k' -> B m' k <= B m k'.
+  Proof.
+    intros H1 H2. unfold level_fuel.
+    pose proof (Nat.mul_le_mono_r m' m (S K) H1) as H3.
+    pose proof (Nat.mul_le_mono_r (m' * S K + k) (m * S K + k') D ltac:(lia)). lia.
+  Qed.
+
+  Lemma lf_ge m k : m + 2 <= B m k.
+  Proof.
+    pose proof D_pos as HD. unfold level_fuel.
+    pose proof (Nat.mul_le_mono_l 1 (S K) m ltac:(lia)) as H1.
+    pose proof (Nat.mul_le_mono_l 1 D (m * S K + k) HD) as H2. lia.
+  Qed.
+
+  Lemma depth_pos e : 1 <= depth e.
+  Proof. destruct e; cbn [depth]; lia. Qed.
+
+  Section TermStep.
+    Variable n : nat.
+    Hypothesis IHn : forall inh e pos st gs k,
+      good e -> pre I pos st gs -> heads_lt inh e k -> k <= K ->
+      depth e + B (i_end I - pos) k <= n -> tparse E n inh e pos st <> Fuel.
+    Local Notation P := (tparse E n).
+    Local Notation C := (tcheck E n).
+
+    Lemma IHn_tc inh e pos st gs k :
+      good e -> pre I pos st gs -> heads_lt inh e k -> k <= K ->
+      depth e + B (i_end I - pos) k <= n -> C inh e pos st <> Fuel.
+    Proof.
+      intros Hg Hpre Hh Hk Hb. rewrite (tcheck_erase n inh e pos st gs (proj1 Hg) Hpre).
+      apply erase_fuel. eapply IHn; eassumption.
+    Qed.
+
+    (* what may be called at [pos] in context [k] may be called anywhere later *)
+    Lemma call_later inh e pos pos' st' gs k :
+      good e -> heads_lt inh e k -> k <= K -> depth e + B (i_end I - pos) k <= n ->
+      pos <= pos' -> pre I pos' st' gs -> P inh e pos' st' <> Fuel.
+    Proof.
+      intros Hg Hh Hk Hb Hle Hpre'. destruct (Nat.eq_dec pos' pos) as [->|Hne].
+      - apply (IHn inh e pos st' gs k); assumption.
+      - apply (IHn inh e pos' st' gs K); [assumption|assumption|apply heads_K; assumption|lia|].
+        pose proof (pre_cur _ _ _ Hpre') as He.
+        pose proof (lf_m (i_end I - pos) (i_end I - pos') K k ltac:(lia) ltac:(lia)). lia.
+    Qed.
+
+    Lemma arep_term inh e gs : good e -> may_be_empty c e = false ->
+      forall lf pos st acc, pre I pos st gs ->
+      (forall pos' st', pos <= pos' -> pre I pos' st' gs -> P inh e pos' st' <> Fuel) ->
+      i_end I - pos < lf -> arep_p E P lf inh e pos st acc <> Fuel.
+    Proof.
+      intros Hg Hne. induction lf as [|lf IH]; intros pos st acc Hpre Hcall Hlf; [lia|]. cbn [arep_p].
+      pose proof Hpre as (Hc & Hst & Hi).
+      pose proof (ron_post E HE (good_node I) gs pos (notrack (P inh e pos)) st Hst
+                    (notrack_post E (good_node I) gs pos _ st Hst (HPn n inh e pos st gs (proj1 Hg) Hpre))) as Hr.
+      destruct (ron E (notrack (P inh e pos)) st) as [[p1 t1] st1|st1| |] eqn:Hron; try discriminate.
+      - destruct (post_ok_inv _ _ _ _ _ _ _ _ Hr eq_refl) as (Hle & _ & Hpre1).
+        apply ron_ok_inv in Hron; [|exact Hfix]. apply notrack_ok_inv in Hron. destruct Hron as [st2 Hp].
+        pose proof (tparse_progress n inh e pos st gs p1 t1 st2 Hg Hpre Hne Hp) as Hlt.
+        pose proof (pre_cur _ _ _ Hpre1) as He.
+        apply IH; [exact Hpre1| |lia]. intros pos' st' Hle' Hpre'. apply Hcall; [lia|exact Hpre'].
+      - exfalso. revert Hron. apply ron_fuel; [exact Hfix|]. apply notrack_fuel. apply Hcall; [lia|exact Hpre].
+    Qed.
+
+    Lemma skip_term pos st gs k : pre I pos st gs -> skip_rank c < k -> k <= K ->
+      B (i_end I - pos) k <= n -> skip_p E P n pos st <> Fuel.
+    Proof.
+      intros Hpre Hsk Hk Hb. unfold skip_p. destruct (e_skip E) as [|se] eqn:Hs in |- *; [discriminate|].
+      destruct (skip_checked se Hs) as (Hg & Hne & Hh).
+      pose proof (skip_depth_lt se Hs) as Hd.
+      pose proof (lf_k (i_end I - pos) (skip_rank c) k Hsk) as Hlk.
+      pose proof (lf_ge (i_end I - pos) k) as Hge.
+      apply (arep_term false se gs Hg Hne); [exact Hpre| |lia].
+      intros pos' st' Hle Hpre'.
+      apply (call_later false se pos pos' st' gs (skip_rank c)); try assumption; lia.
+    Qed.
+
+    Lemma pre_skip_term b doit pos st gs k : pre I pos st gs ->
+      (b = true -> doit = true -> skip_rank c < k) -> k <= K ->
+      B (i_end I - pos) k <= n -> pre_skip_p E P n b doit pos st <> Fuel.
+    Proof.
+      intros Hpre Hsk Hk Hb. unfold pre_skip_p. destruct b; [|discriminate]. destruct doit; [|discriminate].
+      pose proof (skip_term pos st gs k Hpre (Hsk eq_refl eq_refl) Hk Hb) as H.
+      destruct (skip_p E P n pos st) as [[p1 t1] st1|st1| |]; try discriminate. congruence.
+    Qed.
+
+    Lemma seq_term (b inh : bool) : forall es first pos st acc gs k,
+      Forall good es -> pre I pos st gs ->
+      Forall (fun x => x < k)
+        (seq_heads (head_ranks c inh) (may_be_empty c) (if b then [skip_rank c] else []) first es) ->
+      k <= K -> list_max (map depth es) + B (i_end I - pos) k <= n ->
+      seq_p E P n b inh es first pos st acc <> Fuel.
+    Proof.
+      induction es as [|e es IH]; intros first pos st acc gs k Hg Hpre Hh Hk Hb; cbn [seq_p]; [discriminate|].
+      inversion Hg as [|? ? Hge Hges]; subst.
+      rewrite seq_heads_cons in Hh. apply Forall_app in Hh. destruct Hh as [Hh1 Hh2].
+      apply Forall_app in Hh2. destruct Hh2 as [Hh2 Hh3].
+      change (list_max (map depth (e :: es))) with (Nat.max (depth e) (list_max (map depth es))) in Hb.
+      assert (Hsk : pre_skip_p E P n b (negb first) pos st <> Fuel).
+      { apply (pre_skip_term b (negb first) pos st gs k); try assumption; [|lia].
+        intros -> Hf. destruct first; [discriminate|]. inversion Hh1; assumption. }
+      destruct (pre_skip_p E P n b (negb first) pos st) as [[p1 sk] st1|st1| |] eqn:Hsk'; try discriminate;
+        [|congruence].
+      destruct (pre_skip_inv n _ _ _ _ _ _ _ _ Hpre Hsk') as (Hle1 & _ & Hpre1).
+      assert (Hcall : P inh e p1 st1 <> Fuel).
+      { apply (call_later inh e pos p1 st1 gs k); try assumption. lia. }
+      destruct (P inh e p1 st1) as [[p2 t2] st2|st2| |] eqn:Hp; try discriminate; [|congruence].
+      destruct (post_ok_inv _ _ _ _ _ _ _ _ (HPn n inh e p1 st1 gs (proj1 Hge) Hpre1) Hp) as (Hle2 & _ & Hpre2).
+      pose proof (pre_cur _ _ _ Hpre2) as He.
+      destruct (may_be_empty c e) eqn:Hne.
+      - apply (IH false p2 st2 _ gs k); try assumption.
+        pose proof (lf_mono (i_end I - pos) (i_end I - p2) k k ltac:(lia) ltac:(lia)). lia.
+      - pose proof (tparse_progress n inh e p1 st1 gs p2 t2 st2 Hge Hpre1 Hne Hp) as Hlt.
+        apply (IH false p2 st2 _ gs K); try assumption; [|lia|].
+        + apply seq_heads_all.
+          * destruct b; [|constructor]. constructor; [exact skip_rank_lt|constructor].
+          * eapply Forall_impl; [|exact Hges]. intros x Hx. apply heads_K. exact Hx.
+        + pose proof (lf_m (i_end I - pos) (i_end I - p2) K k ltac:(lia) ltac:(lia)). lia.
+    Qed.
+
+    Lemma choice_term inh m : forall es i pos st gs k,
+      Forall good es -> pre I pos st gs ->
+      Forall (fun x => x < k) (flat_map (head_ranks c inh) es) ->
+      k <= K -> list_max (map depth es) + B (i_end I - pos) k <= n ->
+      choice_p E P inh m es i pos st <> Fuel.
+    Proof.
+      induction es as [|e es IH]; intros i pos st gs k Hg Hpre Hh Hk Hb; cbn [choice_p]; [discriminate|].
+      inversion Hg as [|? ? Hge Hges]; subst.
+      cbn [flat_map] in Hh. apply Forall_app in Hh. destruct Hh as [Hh1 Hh2].
+      change (list_max (map depth (e :: es))) with (Nat.max (depth e) (list_max (map depth es))) in Hb.
+      pose proof Hpre as (Hc & Hst & Hi).
+      pose proof (ron_post E HE (good_node I) gs pos (P inh e pos) st Hst (HPn n inh e pos st gs (proj1 Hge) Hpre)) as Hr.
+      destruct (ron E (P inh e pos) st) as [[p1 t1] st1|st1| |] eqn:Hron; try discriminate.
+      - destruct (post_fail_inv _ _ _ _ _ _ Hr eq_refl) as [Hst1 Hi1].
+        apply (IH (S i) pos st1 gs k); try assumption; [exact (mk_pre I pos st1 gs Hc Hst1 Hi1)|lia].
+      - exfalso. revert Hron. apply ron_fuel; [exact Hfix|].
+        apply (IHn inh e pos st gs k); try assumption. lia.
+    Qed.
+
+    Lemma rep_term b inh mn mx e gs pos0 k :
+      good e -> may_be_empty c e = false -> heads_lt inh e k -> k <= K ->
+      depth e + B (i_end I - pos0) k <= n ->
+      forall lf i pos st acc, pre I pos st gs ->
+      ((i = 0 /\ pos = pos0) \/ (0 < i /\ pos0 < pos)) ->
+      i_end I - pos < lf -> rep_p E P n lf b inh mn mx e i pos st acc <> Fuel.
+    Proof.
+      intros Hg Hne Hh Hk Hb. induction lf as [|lf IH]; intros i pos st acc Hpre Hinv Hlf; [lia|].
+      cbn [rep_p]. destruct (below i mx); [|destruct (e_rep_min_after E && (i <? mn)); discriminate].
+      pose proof Hpre as (Hc & Hst & Hi). pose proof (pre_cur _ _ _ Hpre) as He.
+      assert (Hle0 : pos0 <= pos) by (destruct Hinv as [[_ ->]|[_ H]]; lia).
+      assert (Hu : unit_p E P n b inh e i pos st <> Fuel).
+      { unfold unit_p.
+        assert (Hsk : pre_skip_p E P n b (negb (i =? 0)) pos st <> Fuel).
+        { destruct Hinv as [[-> ->]|[Hi0 Hlt]].
+          - cbn [Nat.eqb negb]. unfold pre_skip_p. destruct b; discriminate.
+          - apply (pre_skip_term b _ pos st gs K); [exact Hpre|intros _ _; exact skip_rank_lt|lia|].
+            pose proof (lf_m (i_end I - pos0) (i_end I - pos) K k ltac:(lia) ltac:(lia)). lia. }
+        destruct (pre_skip_p E P n b (negb (i =? 0)) pos st) as [[p1 sk] st1|st1| |] eqn:Hsk'; try discriminate;
+          [|congruence].
+        destruct (pre_skip_inv n _ _ _ _ _ _ _ _ Hpre Hsk') as (Hle1 & _ & Hpre1).
+        assert (Hcall : P inh e p1 st1 <> Fuel).
+        { apply (call_later inh e pos0 p1 st1 gs k); try assumption. lia. }
+        destruct (P inh e p1 st1) as [[p2 t2] st2|st2| |]; try discriminate. congruence. }
+      pose proof (ron_post E HE (good_item I) gs pos _ st Hst
+                    (unit_post E HE P C (HPn _) (HCn _) n b inh e i pos st gs (proj1 Hg) Hpre)) as Hr.
+      destruct (ron E (unit_p E P n b inh e i pos) st) as [[p1 it] st1|st1| |] eqn:Hron; try discriminate.
+      - destruct (post_ok_inv _ _ _ _ _ _ _ _ Hr eq_refl) as (Hle1 & _ & Hpre1).
+        apply ron_ok_inv in Hron; [|exact Hfix].
+        pose proof (unit_prog n (tparse_progress n) _ _ _ _ _ _ _ _ _ _ Hg Hpre Hne Hron) as Hlt.
+        pose proof (pre_cur _ _ _ Hpre1) as He1.
+        apply IH; [exact Hpre1|right; lia|lia].
+      - destruct (i <? mn); discriminate.
+      - exfalso. revert Hron. apply ron_fuel; [exact Hfix|exact Hu].
+    Qed.
+
+    Lemma arr_term inh e gs pos0 : good e ->
+      (forall pos' st', pos0 <= pos' -> pre I pos' st' gs -> P inh e pos' st' <> Fuel) ->
+      forall m pos st acc, pos0 <= pos -> pre I pos st gs -> arr_p P m inh e pos st acc <> Fuel.
+    Proof.
+      intros Hg Hcall. induction m as [|m IH]; intros pos st acc Hle Hpre; cbn [arr_p]; [discriminate|].
+      pose proof (Hcall pos st Hle Hpre) as Hc.
+      destruct (P inh e pos st) as [[p1 t1] st1|st1| |] eqn:Hp; try discriminate; [|congruence].
+      destruct (post_ok_inv _ _ _ _ _ _ _ _ (HPn n inh e pos st gs (proj1 Hg) Hpre) Hp) as (Hle1 & _ & Hpre1).
+      apply IH; [lia|exact Hpre1].
+    Qed.
+
+    Ltac nofuel :=
+      repeat first
+        [ discriminate
+        | apply lift_fuel; intros
+        | apply leaf_match_fuel; intros
+        | match goal with |- context [match ?x with _ => _ end] => destruct x end ].
+
+    Lemma step_term inh e pos st gs k :
+      good e -> pre I pos st gs -> heads_lt inh e k -> k <= K ->
+      depth e + B (i_end I - pos) k <= S n -> step_p E P C n inh e pos st <> Fuel.
+    Proof.
+      intros Hg Hpre Hh Hk Hb. pose proof Hpre as (Hc & Hst & Hi).
+      pose proof (lf_ge (i_end I - pos) k) as Hge2.
+      destruct e; cbn [step_p]; cbn [depth] in Hb.
+      - (* TStr *) nofuel.
+      - (* TInsens *) nofuel.
+      - (* TRange *) nofuel.
+      - (* TAny *) nofuel.
+      - (* TSoi *) nofuel.
+      - (* TEoi *) nofuel.
+      - (* TNewline *) apply newline_fuel.
+      - (* TCharBy *) nofuel.
+      - (* TSkipUntil *) nofuel.
+      - (* TSkipChars *) nofuel.
+      - (* TSeq *)
+        apply (seq_term (resolve k0 inh) inh es true pos st [] gs k); try assumption; [apply (good_seq _ _ Hg)|lia].
+      - (* TChoice *)
+        apply (choice_term inh (length es) es 0 pos st gs k); try assumption; [apply (good_choice _ Hg)|lia].
+      - (* TOpt *)
+        assert (Hcall : P inh e pos st <> Fuel).
+        { apply (IHn inh e pos st gs k); try assumption; try exact Hg; lia. }
+        pose proof (ron_fuel E (P inh e pos) st Hfix Hcall) as Hr.
+        destruct (ron E (P inh e pos) st) as [[p1 t1] st1|st1| |]; try discriminate. congruence.
+      - (* TRep *)
+        destruct (good_rep _ _ _ _ Hg) as [Hge Hne].
+        apply (rep_term (resolve k0 inh) inh mn mx e gs pos k Hge Hne); try assumption; [lia|left; tauto|lia].
+      - (* TAtomicRep *)
+        destruct (good_arep _ Hg) as [Hge Hne].
+        apply (arep_term inh e gs Hge Hne); [exact Hpre| |lia].
+        intros pos' st' Hle Hpre'. apply (call_later inh e pos pos' st' gs k); try assumption. lia.
+      - (* TPos *)
+        set (st1 := with_stk (s_snapshot (stk st)) (ev (EPol true) st)).
+        assert (Hpre1 : pre I pos st1 (cache (stk st) :: gs)).
+        { split; [exact Hc|]. split; [|apply sinv_snapshot; exact Hi].
+          split; [apply Hst|]. cbn [st1 with_stk ev tr]. constructor; [exact Logic.I|apply Hst]. }
+        assert (Hcall : P inh e pos st1 <> Fuel).
+        { apply (IHn inh e pos st1 (cache (stk st) :: gs) k); try assumption; try exact Hg; lia. }
+        destruct (P inh e pos st1) as [[p1 t1] st2|st2| |]; try (apply lift_fuel; intros; discriminate);
+          [discriminate|congruence].
+      - (* TNeg *)
+        set (st1 := with_stk (s_snapshot (stk st)) (ev (EPol false) st)).
+        assert (Hpre1 : pre I pos st1 (cache (stk st) :: gs)).
+        { split; [exact Hc|]. split; [|apply sinv_snapshot; exact Hi].
+          split; [apply Hst|]. cbn [st1 with_stk ev tr]. constructor; [exact Logic.I|apply Hst]. }
+        assert (Hcall : C inh e pos st1 <> Fuel).
+        { apply (IHn_tc inh e pos st1 (cache (stk st) :: gs) k); try assumption; try exact Hg; lia. }
+        destruct (C inh e pos st1) as [p1 st2|st2| |]; try (apply lift_fuel; intros; discriminate);
+          [discriminate|congruence].
+      - (* TPush *)
+        assert (Hcall : P inh e pos st <> Fuel).
+        { apply (IHn inh e pos st gs k); try assumption; try exact Hg; lia. }
+        destruct (P inh e pos st) as [[p1 t1] st1|st1| |]; try (apply lift_fuel; intros; discriminate);
+          [discriminate|discriminate|congruence].
+      - (* TPeek *) nofuel.
+      - (* TPop *) nofuel.
+      - (* TDrop *) nofuel.
+      - (* TPeekAll *) nofuel.
+      - (* TPopAll *) nofuel.
+      - (* TPeekSlice *) nofuel.
+      - (* TArr *)
+        apply (arr_term inh e gs pos); [exact Hg| |lia|exact Hpre].
+        intros pos' st' Hle Hpre'. apply (call_later inh e pos pos' st' gs k); try assumption; try exact Hg; lia.
+      - (* TPair *)
+        destruct (good_pair _ _ Hg) as [Hg1 Hg2].
+        unfold heads_lt in Hh. cbn [head_ranks] in Hh. apply Forall_app in Hh. destruct Hh as [Hh1 Hh2].
+        assert (Hcall : P inh e1 pos st <> Fuel).
+        { apply (IHn inh e1 pos st gs k); try assumption. lia. }
+        destruct (P inh e1 pos st) as [[p1 t1] st1|st1| |] eqn:Hp1; try discriminate; [|congruence].
+        destruct (post_ok_inv _ _ _ _ _ _ _ _ (HPn n inh e1 pos st gs (proj1 Hg1) Hpre) Hp1) as (Hle1 & _ & Hpre1).
+        pose proof (pre_cur _ _ _ Hpre1) as He.
+        assert (Hcall2 : P inh e2 p1 st1 <> Fuel).
+        { destruct (may_be_empty c e1) eqn:Hne.
+          - apply (call_later inh e2 pos p1 st1 gs k); try assumption. lia.
+          - pose proof (tparse_progress n inh e1 pos st gs p1 t1 st1 Hg1 Hpre Hne Hp1) as Hlt.
+            apply (IHn inh e2 p1 st1 gs K); try assumption; [apply heads_K; exact Hg2|lia|].
+            pose proof (lf_m (i_end I - pos) (i_end I - p1) K k ltac:(lia) ltac:(lia)). lia. }
+        destruct (P inh e2 p1 st1) as [[p2 t2] st2|st2| |]; try discriminate. congruence.
+      - (* TEmpty *) discriminate.
+      - (* TFail *) discriminate.
+      - (* TRule *)
+        pose proof (good_rule _ _ Hg) as Hin.
+        pose proof (rule_body_good r Hin) as Hgb.
+        pose proof (rule_depth r Hin) as Hd.
+        unfold heads_lt in Hh. cbn [head_ranks] in Hh. inversion Hh as [|? ? Hrk _]; subst.
+        pose proof (rule_heads r (resolve arg inh) Hin) as Hhb.
+        pose proof (lf_k (i_end I - pos) _ _ Hrk) as Hlk.
+        assert (Hpre1 : pre I pos (ev (EEnter r pos) st) gs).
+        { split; [exact Hc|]. split; [apply good_state_ev; [exact Hc|exact Hst]|exact Hi]. }
+        cbv zeta. destruct (r_emis (e_rules E r)).
+        + assert (Hcall : C (resolve arg inh) (r_body (e_rules E r)) pos (ev (EEnter r pos) st) <> Fuel).
+          { apply (IHn_tc _ _ _ _ gs (rank c r (resolve arg inh))); try assumption; lia. }
+          destruct (C (resolve arg inh) (r_body (e_rules E r)) pos (ev (EEnter r pos) st)) as [p1 st1|st1| |];
+            try (apply lift_fuel; intros; discriminate); [discriminate|discriminate|congruence].
+        + assert (Hcall : P (resolve arg inh) (r_body (e_rules E r)) pos st <> Fuel).
+          { apply (IHn _ _ _ _ gs (rank c r (resolve arg inh))); try assumption; lia. }
+          destruct (P (resolve arg inh) (r_body (e_rules E r)) pos st) as [[p1 t1] st1|st1| |];
+            try discriminate. congruence.
+        + assert (Hcall : P (resolve arg inh) (r_body (e_rules E r)) pos (ev (EEnter r pos) st) <> Fuel).
+          { apply (IHn _ _ _ _ gs (rank c r (resolve arg inh))); try assumption; lia. }
+          destruct (P (resolve arg inh) (r_body (e_rules E r)) pos (ev (EEnter r pos) st)) as [[p1 t1] st1|st1| |];
+            try (apply lift_fuel; intros; discriminate); [discriminate|discriminate|congruence].
+    Qed.
+  End TermStep.
+
+  Theorem tparse_terminates_ctx : forall n inh e pos st gs k,
+    good e -> pre I pos st gs -> heads_lt inh e k -> k <= K ->
+    depth e + B (i_end I - pos) k <= n -> tparse E n inh e pos st <> Fuel.
+  Proof.
+    induction n as [|n IH]; intros inh e pos st gs k Hg Hpre Hh Hk Hb.
+    - exfalso. pose proof (depth_pos e). lia.
+    - cbn [tparse]. apply (step_term n IH inh e pos st gs k); assumption.
+  Qed.
+
+  (* ---- with the explicit bound, both paths ---- *)
+
+  Theorem terminates_both : forall fuel inh e pos st gs,
+    good e -> pre I pos st gs ->
+    fuel_bound rules (e_rules E) (e_skip E) c e (i_end I - pos) <= fuel ->
+    tparse E fuel inh e pos st <> Fuel /\ tcheck E fuel inh e pos st <> Fuel.
+  Proof.
+    intros fuel inh e pos st gs Hg Hpre Hb. unfold fuel_bound in Hb.
+    assert (Hp : tparse E fuel inh e pos st <> Fuel).
+    { apply (tparse_terminates_ctx fuel inh e pos st gs K); try assumption; [apply heads_K; exact Hg|lia]. }
+    split; [exact Hp|]. rewrite (tcheck_erase fuel inh e pos st gs (proj1 Hg) Hpre). apply erase_fuel. exact Hp.
+  Qed.
+
+  (* =========================== (3) entry points ============================================== *)
+
+  Lemma In_mem_rule r : In r rules -> mem_rule rules r = true.
+  Proof. intros Hin. unfold mem_rule. apply existsb_exists. exists r. split; [exact Hin|apply N.eqb_refl]. Qed.
+
+  Lemma good_start r : In r rules -> good (TRule r SkOn).
+  Proof. intros Hin. split; [apply lits_ok_rule|apply In_mem_rule; exact Hin]. Qed.
+
+  Lemma top_skip_terminates fuel pos st gs : pre I pos st gs ->
+    B (i_end I - pos) K <= fuel -> top_skip_p E fuel pos st <> Fuel.
+  Proof.
+    intros Hpre Hb. unfold top_skip_p.
+    apply (skip_term fuel (tparse_terminates_ctx fuel) pos st gs K); [exact Hpre|exact skip_rank_lt|lia|exact Hb].
+  Qed.
+
+  Lemma eoi_attempt_fuel pos st : eoi_attempt E pos st <> Fuel.
+  Proof. unfold eoi_attempt. destruct (i_at_end I pos); discriminate. Qed.
+
+  Theorem entry_points_terminate : forall r fuel, In r rules ->
+    fuel_bound rules (e_rules E) (e_skip E) c (TRule r SkOn) (i_end I - i_start I) <= fuel ->
+    try_parse_partial E fuel r <> Fuel /\ try_check_partial E fuel r <> Fuel /\
+    try_parse E fuel r <> Fuel /\ try_check E fuel r <> Fuel.
+  Proof.
+    intros r fuel Hin Hb.
+    destruct (terminates_both fuel true (TRule r SkOn) (i_start I) st0 [] (good_start r Hin) (pre_start E HE) Hb)
+      as [Hp Hc].
+    assert (Hfull : try_parse E fuel r <> Fuel).
+    { unfold try_parse. pose proof (try_parse_partial_good E fuel r HE) as Hpost.
+      fold (try_parse_partial E fuel r) in Hp.
+      destruct (try_parse_partial E fuel r) as [[pos t] st|st| |] eqn:Hpp; try discriminate; [|congruence].
+      destruct (post_ok_inv _ _ _ _ _ _ _ _ Hpost eq_refl) as (Hle & _ & Hpre).
+      destruct (no_ignore E r).
+      - pose proof (eoi_attempt_fuel pos st) as He.
+        destruct (eoi_attempt E pos st) as [[] st'|st'| |]; try discriminate. congruence.
+      - assert (Hsk : top_skip_p E fuel pos st <> Fuel).
+        { apply (top_skip_terminates fuel pos st [] Hpre). unfold fuel_bound in Hb.
+          pose proof (lf_mono (i_end I - i_start I) (i_end I - pos) K K ltac:(lia) ltac:(lia)). lia. }
+        destruct (top_skip_p E fuel pos st) as [[pos' t'] st'|st'| |]; try discriminate; [|congruence].
+        pose proof (eoi_attempt_fuel pos' st') as He.
+        destruct (eoi_attempt E pos' st') as [[] st''|st''| |]; try discriminate. congruence. }
+    split; [exact Hp|]. split; [exact Hc|]. split; [exact Hfull|].
+    rewrite try_check_is_parse.
+    - destruct (try_parse E fuel r); cbn [erase_all]; congruence.
+    - pose proof (try_parse_good E fuel r HE) as Hg. intros Hx. rewrite Hx in Hg. exact Hg.
+  Qed.
+
 End Wf.
+
+(* ---- the statements of Properties/C11_term, spelled out -------------------------------------- *)
+
+Lemma c11_progress : forall E rules c, env_ok E -> wf_cert rules (e_rules E) (e_skip E) c = true ->
+  forall fuel inh e pos st gs pos' t st',
+  lits_ok e -> expr_ok c rules e = true ->
+  good_cur (e_inp E) pos -> good_state (e_inp E) st -> SInv (stk st) gs ->
+  may_be_empty c e = false ->
+  tparse E fuel inh e pos st = Ok (pos', t) st' -> pos < pos'.
+Proof.
+  intros E rules c HE Hwf fuel inh e pos st gs pos' t st' Hl He Hc Hst Hi Hne Hrun.
+  exact (tparse_progress E c rules HE Hwf fuel inh e pos st gs pos' t st' (conj Hl He)
+           (mk_pre _ pos st gs Hc Hst Hi) Hne Hrun).
+Qed.
+
+Lemma c11_terminates : forall E rules c, env_ok E -> wf_cert rules (e_rules E) (e_skip E) c = true ->
+  forall e inh pos st gs,
+  lits_ok e -> expr_ok c rules e = true ->
+  good_cur (e_inp E) pos -> good_state (e_inp E) st -> SInv (stk st) gs ->
+  forall fuel, fuel_bound rules (e_rules E) (e_skip E) c e (i_end (e_inp E) - pos) <= fuel ->
+  tparse E fuel inh e pos st <> Fuel /\ tcheck E fuel inh e pos st <> Fuel.
+Proof.
+  intros E rules c HE Hwf e inh pos st gs Hl He Hc Hst Hi fuel Hb.
+  exact (terminates_both E c rules HE Hwf fuel inh e pos st gs (conj Hl He) (mk_pre _ pos st gs Hc Hst Hi) Hb).
+Qed.
+
+Lemma c11_terminates_ex : forall E rules c, env_ok E -> wf_cert rules (e_rules E) (e_skip E) c = true ->
+  forall e inh pos st gs,
+  lits_ok e -> expr_ok c rules e = true ->
+  good_cur (e_inp E) pos -> good_state (e_inp E) st -> SInv (stk st) gs ->
+  exists fuel, forall fuel', fuel <= fuel' ->
+    tparse E fuel' inh e pos st <> Fuel /\ tcheck E fuel' inh e pos st <> Fuel.
+Proof.
+  intros E rules c HE Hwf e inh pos st gs Hl He Hc Hst Hi.
+  exists (fuel_bound rules (e_rules E) (e_skip E) c e (i_end (e_inp E) - pos)). intros fuel' Hb.
+  exact (c11_terminates E rules c HE Hwf e inh pos st gs Hl He Hc Hst Hi fuel' Hb).
+Qed.
+
+(* with C09: given the fuel, a run returns a value or a failure -- neither Fuel nor Panic *)
+Lemma c11_returns : forall E rules c, env_ok E -> wf_cert rules (e_rules E) (e_skip E) c = true ->
+  forall e inh pos st gs,
+  lits_ok e -> expr_ok c rules e = true ->
+  good_cur (e_inp E) pos -> good_state (e_inp E) st -> SInv (stk st) gs ->
+  forall fuel, fuel_bound rules (e_rules E) (e_skip E) c e (i_end (e_inp E) - pos) <= fuel ->
+  match tparse E fuel inh e pos st with
+  | Ok (pos', _) _ => pos <= pos' <= i_end (e_inp E)
+  | Fail _ => True
+  | Panic => False
+  | Fuel => False
+  end.
+Proof.
+  intros E rules c HE Hwf e inh pos st gs Hl He Hc Hst Hi fuel Hb.
+  destruct (c11_terminates E rules c HE Hwf e inh pos st gs Hl He Hc Hst Hi fuel Hb) as [Hp _].
+  pose proof (c09_tparse E HE fuel inh e pos st gs Hl Hc Hst Hi) as H9.
+  destruct (tparse E fuel inh e pos st) as [[pos' t] st'|st'| |]; try tauto.
+  destruct H9 as (H1 & (_ & H2) & _). lia.
+Qed.
+
+Lemma c11_entry_points : forall E rules c, env_ok E -> wf_cert rules (e_rules E) (e_skip E) c = true ->
+  forall r, In r rules ->
+  forall fuel,
+  fuel_bound rules (e_rules E) (e_skip E) c (TRule r SkOn) (i_end (e_inp E) - i_start (e_inp E)) <= fuel ->
+  try_parse_partial E fuel r <> Fuel /\ try_check_partial E fuel r <> Fuel /\
+  try_parse E fuel r <> Fuel /\ try_check E fuel r <> Fuel.
+Proof.
+  intros E rules c HE Hwf r Hin fuel Hb.
+  exact (entry_points_terminate E c rules HE Hwf r fuel Hin Hb).
+Qed.
